@@ -203,7 +203,7 @@ func errTestEdges(c *ssa.Call) (ok bool, succ, fail *ssa.BasicBlock, ifi *ssa.If
 		if !isIf {
 			continue
 		}
-		if s, m := g.Match(i); m {
+		if s, m := core.MatchCond(g, i.Cond, nil); m {
 			return true, b.Succs[s], b.Succs[1-s], i
 		}
 	}
